@@ -4,6 +4,7 @@
 //   run <lay> <interp> <N> <s1..sN> <T> <mode> <reps> ; <tid> r <c1..cN> ; <tid> w <c1..cN> <v> ; ...
 //     lay = strided | mortonT | mortonF | hilbert (compile time: -DLAY=0..3 selects one), interp = direct | nn | linear
 //     mode = shared (all threads use one view object made by the main thread) | own (every thread makes its own views)
+//          | two <reps> <s2_1..s2_N> (two fields of the same type, different extents: even threads use the first, odd the second)
 //     r: lookup through the view of the whole stack (naturals for direct, f32 bit patterns for nn / linear)
 //     w: write float(v) through a view of the storage-order layer at integer coordinates
 // Answer: `seq d0 .. dT-1 | conc d0 .. dT-1 | conc ...` (one `conc` group per repetition); d = FNV-1a-64 over the bit
@@ -102,6 +103,45 @@ template <int I, std::size_t N> struct Run {
     }
     return h;
   }
+  // mode `two`: two fields of the SAME type but different extents; even threads look up in the first, odd threads in the
+  // second (every thread through its own views) — state shared between fields of one type must not exist
+  static std::string go2(const std::vector<u64> & sz, const std::vector<u64> & sz2, std::size_t T, std::size_t reps, const Progs & progs) {
+    std::ostringstream os;
+    {
+      F f = make(sz); F g = make(sz2);
+      os << "seq";
+      for (std::size_t t = 0; t < T; ++t) {
+        const F & x = (t % 2) ? g : f;
+        View v(x); LView lv(layer_of(x));
+        os << " " << std::hex << exec(progs[t], v, lv);
+      }
+    }
+    for (std::size_t rep = 0; rep < reps; ++rep) {
+      std::vector<u64> dig(T, 0);
+      std::atomic<std::size_t> ready{0};
+      std::atomic<bool> start{false};
+      std::vector<std::thread> th;
+      // the fields are built by the threads that use them, concurrently with the other field's lookups
+      F f = make(sz);
+      std::optional<F> g;
+      for (std::size_t t = 0; t < T; ++t) {
+        th.emplace_back([&, t]() {
+          ready.fetch_add(1);
+          while (!start.load(std::memory_order_acquire)) std::this_thread::yield();
+          const F & x = (t % 2) ? *g : f;
+          View v(x); LView lv(layer_of(x));
+          dig[t] = exec(progs[t], v, lv);
+        });
+      }
+      while (ready.load() < T) std::this_thread::yield();
+      g.emplace(make(sz2));
+      start.store(true, std::memory_order_release);
+      for (auto & x : th) x.join();
+      os << " | conc";
+      for (std::size_t t = 0; t < T; ++t) os << " " << std::hex << dig[t];
+    }
+    return os.str();
+  }
   static std::string go(const std::vector<u64> & sz, std::size_t T, bool shared, std::size_t reps, const Progs & progs) {
     std::ostringstream os;
     {   // the same per-thread programs, one after the other, on a fresh field
@@ -137,7 +177,12 @@ template <int I, std::size_t N> struct Run {
   }
 };
 
-template <int I> std::string byN(std::size_t N, const std::vector<u64> & sz, std::size_t T, bool shared, std::size_t reps, const Progs & p) {
+template <int I> std::string byN(std::size_t N, const std::vector<u64> & sz, const std::vector<u64> & sz2, std::size_t T, bool shared, std::size_t reps, const Progs & p) {
+  if (!sz2.empty()) {
+    if (N == 2) return Run<I, 2>::go2(sz, sz2, T, reps, p);
+    if constexpr (LAY != 3) { if (N == 3) return Run<I, 3>::go2(sz, sz2, T, reps, p); }
+    return "unsupported";
+  }
   if (N == 2) return Run<I, 2>::go(sz, T, shared, reps, p);
   if constexpr (LAY != 3) { if (N == 3) return Run<I, 3>::go(sz, T, shared, reps, p); }
   return "unsupported";
@@ -157,9 +202,11 @@ int main() {
       std::vector<u64> sz(N <= 4 ? N : 0);
       for (auto & s : sz) is >> s;
       is >> T >> mode >> reps;
+      std::vector<u64> sz2;
+      if (mode == "two") { sz2.resize(sz.size()); for (auto & s : sz2) is >> s; }
       if (op == "run" && lay == lays[LAY] && T >= 1 && T <= 64 && (N == 2 || N == 3)) {
         Progs progs(T);
-        bool ok = true;
+        bool ok = static_cast<bool>(is);
         for (std::size_t k = 1; k < parts.size(); ++k) {
           std::istringstream ps(parts[k]);
           std::size_t tid; std::string kind;
@@ -172,8 +219,8 @@ int main() {
         }
         if (ok) {
           bool shared = mode == "shared";
-          r = ip == "direct" ? byN<0>(N, sz, T, shared, reps, progs) : ip == "nn" ? byN<1>(N, sz, T, shared, reps, progs)
-            : ip == "linear" ? byN<2>(N, sz, T, shared, reps, progs) : r;
+          r = ip == "direct" ? byN<0>(N, sz, sz2, T, shared, reps, progs) : ip == "nn" ? byN<1>(N, sz, sz2, T, shared, reps, progs)
+            : ip == "linear" ? byN<2>(N, sz, sz2, T, shared, reps, progs) : r;
         } else r = "bad-op";
       }
     }
